@@ -20,9 +20,10 @@ WALL_CAP_MS = 180_000
 
 MAX_RLIMIT = 300_000_000
 RETRY_RLIMIT = 30_000_000
-SMALL_WALL_MS = 40_000
+SMALL_WALL_MS = 60_000  # generous: a verdict must not depend on the machine's load (the rlimit is the real bound)
+ABSTRACT_WALL_MS = 120_000
 FIRST_RLIMIT = 3_000_000
-FIRST_WALL_MS = 8_000
+FIRST_WALL_MS = 20_000
 FAILED_SECONDS = [0.0]  # wall time this process has spent on attempts that did not prove
 FAILED_SECONDS_CAP = 600.0
 
@@ -115,7 +116,7 @@ def discharge(ob, timeout_ms=None, want_model=True, rlimit=None, _split=True, _q
         any_change |= ch
     if any_change and plan:
         s = z3.Solver()
-        s.set("timeout", SMALL_WALL_MS)
+        s.set("timeout", ABSTRACT_WALL_MS)
         s.set("rlimit", small)
         for h in ah:
             s.add(h)
@@ -128,6 +129,13 @@ def discharge(ob, timeout_ms=None, want_model=True, rlimit=None, _split=True, _q
                 ob.units = max(0, int(s.statistics().get_key_value("rlimit count")) - c0)
             except Exception:
                 ob.units = 0
+            return ob
+    # attempt 2: case split on an integer constant whose hypotheses bound it to a small range (e.g. the
+    # precision p of a HyperLogLog, 7..16): each case is discharged with the value substituted
+    if plan and not _quick_only:
+        cs = _case_split(ob.hyps, g, small)
+        if cs is not None:
+            ob.seconds, ob.backend, ob.result, ob.units = time.time() - t, "z3 (case split on %s)" % cs[0], "proved", cs[1]
             return ob
     for seed, lim, wall in plan:
         s = z3.Solver()
@@ -273,3 +281,78 @@ def abstract_nonlinear(e, cache=None):
 
     out = go(e)
     return out, changed[0]
+
+
+def _bounds(hyps):
+    """integer constants with a constant lower and upper bound among the (simplified) hypotheses"""
+    lo, hi = {}, {}
+
+    def visit(f):
+        f = z3.simplify(f)
+        if z3.is_and(f):
+            for c in f.children():
+                visit(c)
+            return
+        neg = False
+        if z3.is_not(f):
+            f, neg = f.arg(0), True
+        if not (z3.is_le(f) or z3.is_ge(f) or z3.is_lt(f) or z3.is_gt(f)) or f.num_args() != 2:
+            return
+        a, b = f.arg(0), f.arg(1)
+        kind = f.decl().kind()
+        if z3.is_int_value(a) and z3.is_const(b) and b.decl().kind() == z3.Z3_OP_UNINTERPRETED:
+            a, b = b, a
+            kind = {z3.Z3_OP_LE: z3.Z3_OP_GE, z3.Z3_OP_GE: z3.Z3_OP_LE, z3.Z3_OP_LT: z3.Z3_OP_GT, z3.Z3_OP_GT: z3.Z3_OP_LT}[kind]
+        if not (z3.is_const(a) and a.decl().kind() == z3.Z3_OP_UNINTERPRETED and z3.is_int(a) and z3.is_int_value(b)):
+            return
+        v = b.as_long()
+        if neg:  # not (x <= v)  ==  x >= v + 1, ...
+            kind, v = {z3.Z3_OP_LE: (z3.Z3_OP_GE, v + 1), z3.Z3_OP_GE: (z3.Z3_OP_LE, v - 1), z3.Z3_OP_LT: (z3.Z3_OP_GE, v), z3.Z3_OP_GT: (z3.Z3_OP_LE, v)}[kind]
+        if kind == z3.Z3_OP_LT:
+            kind, v = z3.Z3_OP_LE, v - 1
+        if kind == z3.Z3_OP_GT:
+            kind, v = z3.Z3_OP_GE, v + 1
+        k = a.get_id()
+        if kind == z3.Z3_OP_LE:
+            hi[k] = (a, min(v, hi.get(k, (a, v))[1]))
+        else:
+            lo[k] = (a, max(v, lo.get(k, (a, v))[1]))
+
+    for h in hyps:
+        if isinstance(h, bool):
+            continue
+        try:
+            visit(h)
+        except Exception:
+            pass
+    out = []
+    for k in lo:
+        if k in hi and 0 <= hi[k][1] - lo[k][1] <= 32:
+            out.append((lo[k][0], lo[k][1], hi[k][1]))
+    out.sort(key=lambda x: x[2] - x[1])
+    return out
+
+
+def _case_split(hyps, g, rlimit):
+    bs = _bounds(hyps)
+    if not bs:
+        return None
+    x, a, b = bs[0]
+    units = 0
+    hs = [h for h in hyps if not isinstance(h, bool)]
+    for v in range(a, b + 1):
+        sub = [(x, z3.IntVal(v))]
+        s = z3.Solver()
+        s.set("timeout", SMALL_WALL_MS)
+        s.set("rlimit", rlimit)
+        for h in hs:
+            s.add(z3.simplify(z3.substitute(h, *sub)))
+        s.add(z3.Not(z3.simplify(z3.substitute(g, *sub))))
+        c0 = _count()
+        if s.check() != z3.unsat:
+            return None
+        try:
+            units = max(units, int(s.statistics().get_key_value("rlimit count")) - c0)
+        except Exception:
+            pass
+    return str(x), units
